@@ -776,6 +776,11 @@ impl Walrus {
                 });
                 planned_bytes += (end - cur_off) as usize;
             }
+            if end < block.used {
+                // Stopped inside this sealed block: planning later blocks or the writer
+                // tail now would make the parser jump over the unread rest of this block.
+                break;
+            }
             cur_idx += 1;
             cur_off = 0;
         }
@@ -991,8 +996,9 @@ impl Walrus {
         let mut entries_parsed = 0u32;
         let mut saw_tail = false;
 
+        let mut stop_parsing = false;
         for (plan_idx, read_plan) in plan.iter().enumerate() {
-            if entries.len() >= MAX_BATCH_ENTRIES {
+            if stop_parsing || entries.len() >= MAX_BATCH_ENTRIES {
                 break;
             }
             let buffer = &buffers[plan_idx];
@@ -1004,6 +1010,7 @@ impl Walrus {
                 }
                 // Try to read metadata header
                 if buf_offset + PREFIX_META_SIZE > buffer.len() {
+                    stop_parsing = true; // later ranges would skip this entry
                     break; // Not enough data for header
                 }
 
@@ -1032,6 +1039,7 @@ impl Walrus {
 
                 // Check if we have enough buffer space for the data
                 if buf_offset + entry_consumed > buffer.len() {
+                    stop_parsing = true; // later ranges would skip this entry
                     break; // Incomplete entry
                 }
 
@@ -1040,6 +1048,7 @@ impl Walrus {
                     .checked_add(data_size)
                     .unwrap_or(usize::MAX);
                 if next_total > max_bytes && !entries.is_empty() {
+                    stop_parsing = true; // later ranges would skip this entry
                     break;
                 }
 
